@@ -62,6 +62,7 @@ type Scenario struct {
 	Pre      string                 `json:"pre,omitempty"`       // a script whose clones run alone, one after another, right before the clones / goroutines start (it is expected to fail with the string-limit error inside format)
 	PreRuns  int                    `json:"pre_runs,omitempty"`  // … this many times
 	Cancel   bool                   `json:"cancel,omitempty"`    // long-running program: api trials only, with RunContext calls cancelled / timing out mid-run (cancel.go)
+	API      bool                   `json:"api,omitempty"`       // the program re-initialises everything it accumulates in its inputs: the api stream applies although Vars are given
 }
 
 // Trial: one concurrent execution of a scenario.
@@ -726,7 +727,7 @@ func targeted() []Scenario {
 // targetedLate: scenarios added after the first evaluation of seeded changes. They run AFTER the generated
 // programs, so the program sequence of a seed (scenario i draws from the i-th fork) is the one it always was.
 func targetedLate() []Scenario {
-	return []Scenario{
+	late := []Scenario{
 		// an execution whose format output exceeds tengo.MaxStringLen fails; the clones that call format afterwards
 		// (at the same time) must still get what they get alone
 		{Name: "format-after-limit-error", IDVar: "id", Pre: "x := format(\"%2000000d\", 1)\n", PreRuns: 8,
@@ -741,6 +742,58 @@ func targetedLate() []Scenario {
 			Src: "a := 0\nm := {k: 0}\narr := [0, 0, 0]\nfor i := 0; i < 800; i++ { a = a + 1; m.k = a + id; arr[i % 3] = a }\nout := a + id\n"},
 		{Name: "cancel-calls-and-map-writes", IDVar: "id", Cancel: true,
 			Src: "f := func(x) { return x * 2 + 1 }\ntot := 0\nm := {}\nfor i := 0; i < 600; i++ { tot = f(tot) % 1000003 + id; m[string(i % 7)] = tot }\ns := \"\"\nfor i := 0; i < 50; i++ { s = s + string(i % 10) }\n"},
+	}
+	return append(late, nestedInImmutable()...)
+}
+
+func imm(v interface{}) map[string]interface{} { return map[string]interface{}{"__imm": v} }
+
+// nestedInImmutable (round 3, seeded change C08-m6): only the OUTER container of an immutable array / map is
+// immutable; an array or map inside it is updated in place by `cfg.hits[0] = …` / `cfg.opts.n = …` (the immutable
+// container is only read on the way). Each clone must own such nested values as it owns every other part of its
+// globals. The immutable global exists at Clone() time: added by the host before Compile, or made by a first Run
+// of the original (`immutable(…)`, the export of a source module). Updates go through index and selector
+// assignment only (an `append` makes a new array: no update in place); the immutable container itself is never
+// assigned to, so the programs run the same whether a clone holds it immutable or thawed.
+func nestedInImmutable() []Scenario {
+	arr := func(xs ...interface{}) []interface{} { return xs }
+	obj := func(kv ...interface{}) map[string]interface{} {
+		m := map[string]interface{}{}
+		for i := 0; i+1 < len(kv); i += 2 {
+			m[kv[i].(string)] = kv[i+1]
+		}
+		return m
+	}
+	return []Scenario{
+		// immutable map holding an array and a map (the demonstration's shape: hit counter in a configuration)
+		{Name: "immutable-map-input-holds-array-and-map", IDVar: "id",
+			Vars: map[string]interface{}{"cfg": imm(obj("name", "svc", "hits", arr(0, 0), "opts", obj("n", 0, "tags", obj("a", 0))))},
+			Src:  "cfg.hits[0] = cfg.hits[0] + id\nout := cfg.hits[0]\ncfg.opts.n = cfg.opts.n + id * 2\ncfg.opts.tags.a += 1\ncfg.opts[\"seen\"] = id\nfor i := 0; i < 50; i++ { cfg.hits[1] += id + i; cfg.opts.n += cfg.hits[1] % 5 }\nout2 := [cfg.hits, cfg.opts.n, cfg.opts.tags.a, cfg.name]\n"},
+		// immutable array holding a map and an array
+		{Name: "immutable-array-input-holds-map-and-array", IDVar: "id",
+			Vars: map[string]interface{}{"tbl": imm(arr(obj("n", 0, "l", arr(0)), arr(0, 0, 0), 5))},
+			Src:  "tbl[0].n += id\ntbl[0].l[0] = tbl[0].l[0] + id + 1\ntbl[1][1] = tbl[1][1] + id\nout := [tbl[0].n, tbl[1][1], tbl[2]]\nfor i := 0; i < 50; i++ { tbl[1][i % 3] += id; tbl[0].n = tbl[0].n + tbl[1][0] % 3 }\nout2 := [tbl[0], tbl[1]]\n"},
+		// two levels: immutable inside immutable, then the mutable value; and a mutable one inside a mutable one
+		{Name: "immutable-input-two-levels", IDVar: "id", Runs: 2,
+			Vars: map[string]interface{}{
+				"deep": imm(obj("lvl", imm(obj("leaf", arr(0), "m", obj("k", 0))), "row", imm(arr(imm(arr(arr(0, 0))))))),
+				"mix":  imm(arr(obj("box", obj("cnt", arr(0))))),
+			},
+			Src: "deep.lvl.leaf[0] += id\ndeep.lvl.m.k = deep.lvl.m.k + id\ndeep.row[0][0][1] += id + 3\nmix[0].box.cnt[0] += id\nmix[0].box.last = id\nout := [deep.lvl.leaf[0], deep.lvl.m.k, deep.row[0][0][1], mix[0].box.cnt[0]]\nfor i := 0; i < 40; i++ { deep.lvl.leaf[0] += 1; mix[0].box.cnt[0] += deep.lvl.leaf[0] % 4 }\nout2 := [deep, mix]\n"},
+		// the immutable value is made by the first Run of the original, before Clone
+		{Name: "immutable-made-by-first-run", IDVar: "id", AfterRun: true, Vars: map[string]interface{}{"cfg": nil, "tbl": nil},
+			Src: "if is_undefined(cfg) {\n  cfg = immutable({hits: [0], sub: {n: 0}})\n  tbl = immutable([[0, 0], {v: 0}, immutable({box: [0]})])\n}\ncfg.hits[0] = cfg.hits[0] + id\ncfg.sub.n += id\ntbl[0][1] += id\ntbl[1].v = tbl[1].v + id\ntbl[2].box[0] += id\nout := [cfg.hits[0], cfg.sub.n, tbl[0][1], tbl[1].v, tbl[2].box[0]]\nfor i := 0; i < 40; i++ { cfg.hits[0] += 1; tbl[0][0] += cfg.hits[0] % 3 }\nout2 := [cfg, tbl]\n"},
+		{Name: "immutable-made-by-first-run-two-runs", IDVar: "id", AfterRun: true, Runs: 2, Vars: map[string]interface{}{"st": nil},
+			Src: "if is_undefined(st) { st = immutable([{total: 0, log: [0, 0, 0]}]) }\nst[0].total += id\nst[0].log[st[0].total % 3] = id\nfor i := 0; i < 30; i++ { st[0].total += i % 2; st[0].log[i % 3] += 1 }\nout := [st[0].total, st[0].log]\n"},
+		// what a source module exports is an immutable map; kept in a global across runs
+		{Name: "module-export-kept-across-runs", IDVar: "id", AfterRun: true, Vars: map[string]interface{}{"st": nil},
+			SrcMods: map[string]string{"state": "export {hits: [0, 0], sub: {n: 0}, name: \"state\"}\n"},
+			Src:     "if is_undefined(st) { st = import(\"state\") }\nst.hits[0] += id\nst.sub.n = st.sub.n + id\nfor i := 0; i < 40; i++ { st.hits[1] += id + i; st.sub.n += st.hits[1] % 5 }\nout := [st.hits, st.sub.n, st.name]\n"},
+		// everything accumulated is re-initialised by the program: also an api scenario (Clone and Run/RunContext on
+		// the object at the same time; a clone taken at any time must behave like a clone of a fresh compile)
+		{Name: "immutable-input-nested-reinitialised", IDVar: "id", API: true,
+			Vars: map[string]interface{}{"cfg": imm(obj("hits", arr(0), "sub", obj("n", 0))), "tbl": imm(arr(obj("v", 0)))},
+			Src:  "cfg.hits[0] = 0\ncfg.sub.n = id\ntbl[0].v = 0\nfor i := 0; i < 80; i++ { cfg.hits[0] += id + i; cfg.sub.n = cfg.sub.n + cfg.hits[0] % 7; tbl[0].v = tbl[0].v + cfg.hits[0] }\nout := [cfg.hits[0], cfg.sub.n, tbl[0].v]\n"},
 	}
 }
 
@@ -834,7 +887,7 @@ func runScenario(sc Scenario, r *lib.RNG, reps int, ks []int) {
 			res.Dist("clone-run-fails")
 		}
 	}
-	if len(sc.Vars) > 0 {
+	if len(sc.Vars) > 0 && !sc.API {
 		return // api stream: programs whose state is a function of the last Set only (no accumulating inputs)
 	}
 	for rep := 0; rep < (reps+1)/2; rep++ {
